@@ -65,6 +65,14 @@ def stepLine (st : State) (toks : List String) : State × String :=
       ({ m := { cells := List.replicate ms (BitVec.ofNat 8 fl) },
          s := { sumAddr := sa, width := w, init := ini, dataSize := ds, buf := b }, kind := kind }, "ok")
     | _, _, _, _, _ => (st, "bad-op")
+  | ["ps.resum", kind, init] =>
+    -- the checksum of a live instance is configured again: width and start value change, nothing else
+    match parseNat init with
+    | some ini =>
+      if kind == "crc16" || kind == "sum32" then
+        ({ st with s := { st.s with width := if kind == "sum32" then 4 else 2, init := ini }, kind := kind }, "ok")
+      else (st, "bad-op")
+    | none => (st, "bad-op")
   | ["ps.faults", script] =>
     match parseFaults script with
     | some fs => ({ st with m := { st.m with faults := fs } }, "ok")
